@@ -18,9 +18,13 @@ the *source offset* and is only used by the media requests.
 Float steps of the Python and how they are treated:
 * `int(firstAvailableTime.total_seconds() // duration.total_seconds())`
   (manifest_context.py:212-213) – the loop count.  It is a *parameter* `nl` of
-  `livePeriodsFrom`; `livePeriods` instantiates it with the exact floor `F / D`
-  (validated against the implementation while `F < 2⁵³ µs`, i.e. for any realistic
-  clock).  The cover theorem only needs `nl · D ≤ F`.
+  `livePeriodsFrom`.  CPython's float `//` is the exact floor of the quotient of the two
+  doubles `F/10⁶`, `D/10⁶`, which is `⌊F / D⌋` or – when `F` is at (or within float
+  rounding of) a multiple of `D`, e.g. `0.3 // 0.1 = 2` – one less; the driver evaluates it
+  exactly that way (`Driver/Periods.lean`, `floatLoopCount`).  `livePeriods` instantiates
+  `nl` with the exact floor `F / D`.  Contiguity and id uniqueness hold for every `nl`, the
+  cover theorem only needs `nl · D ≤ F` (a count that is one too small merely lists one
+  more Period that ends at `F`).
 * `int(floor(period.start.total_seconds() * timing_ref.timescale))`
   (media_requests.py:555-556) – the source offset in reference ticks.  It is the
   parameter `startRef` of `mpsStartTc` (the driver evaluates the float expression
